@@ -39,11 +39,60 @@ LABELS = {
 }
 
 
+def _split_lines(arg):
+    """A written string that is several lines glued together -> the lines as ('fstr', parts) terms (a trailing partial line stays
+    a line of its own); None when the argument is not a concatenation of literal / formatted pieces."""
+    from .C17 import flatten_str, merge_lits
+    if arg[0] not in ("strcat", "fstr"):
+        return None
+    pieces = merge_lits(flatten_str(arg))
+    lines, cur = [], []
+    for k, v in pieces:
+        if k == "hole":
+            cur.append(v)
+            continue
+        rest = v
+        while "\n" in rest:
+            head, rest = rest.split("\n", 1)
+            cur.append(C(head + "\n"))
+            lines.append(cur)
+            cur = []
+        if rest:
+            cur.append(C(rest))
+    if cur:
+        lines.append(cur)
+    out = []
+    for parts in lines:
+        merged = []
+        for p_ in parts:
+            if is_const(p_) and merged and is_const(merged[-1]):
+                merged[-1] = C(merged[-1][1] + p_[1])
+            else:
+                merged.append(p_)
+        out.append(merged[0] if len(merged) == 1 and is_const(merged[0]) else ("fstr", tuple(merged)))
+    return out
+
+
 def r1234_writer(ctx, chk):
     f = ctx.func(SAVE)
     sx = SymX(ctx, f, inline_depth=3, unroll_literals=True).run()      # helpers (also generators / local functions / label tables) are judged by their content
     loops = [l for l in sx.loops.values() if l.kind == "for"]
     res_param, fname_param = ("v", f.params[0]), ("v", f.params[1])
+    if len(loops) > 1:
+        # further loops that only produce an optional appendix (a summary written when an option of the writer is on, after the
+        # blocks): the block loop is the top-level one over the entries
+        nested = {i for l in sx.loops.values() for i in l.inner}
+        top = [l for l in loops if l.id not in nested]
+        has_writes = lambda l: any(e[1] == "call" and e[2][0] == "mcall" and e[2][2] in ("write", "writelines") for e in l.effects)
+        main = [l for l in top if l.source == ("mcall", res_param, "items", (), ()) and has_writes(l)]
+        if len(main) == 1:
+            order = [e[2] for e in sx.final.effects if e[1] == "loop"]
+            after = [l for l in top if l is not main[0]]
+            optional = all(any(e[1] == "loop" and e[2] == l.id and e[0] != TRUE and any(y[0] == "v" and y[1] in f.params[2:] for y in C02._sub(e[0]))
+                               for e in sx.final.effects) for l in after)
+            later = all(l.id in order and main[0].id in order and order.index(l.id) > order.index(main[0].id) for l in after)
+            if all((not has_writes(l)) or (optional and later) for l in after):
+                loops = main
     if len(loops) != 1:
         chk.undecided("C16.4", f.where(), "%d loops in save_results_to_file" % len(loops))
         return
@@ -62,7 +111,13 @@ def r1234_writer(ctx, chk):
     writes = []
     for cond, kind, call in raw:
         if call[2] == "write":
-            writes.append((cond, kind, call))
+            # a whole block written at once ("".join(lines), one string built from the lines): one pseudo write per line
+            split = _split_lines(call[3][0]) if call[3] else None
+            if split is not None and len(split) > 1:
+                for line in split:
+                    writes.append((cond, kind, ("mcall", call[1], "write", (line,), ())))
+            else:
+                writes.append((cond, kind, call))
         elif call[3] and call[3][0][0] == "list":
             # writelines(<list of lines>): one pseudo write per line
             for item in call[3][0][1]:
@@ -209,6 +264,19 @@ def norm_stem(t, param):
     """Normalise a stem expression to nested ('basename'|'cutdot'|'cutext', x) over ('param',); None if unknown."""
     if t == param:
         return ("param",)
+    # the same cuts written with rsplit / split with a count / partition
+    if t[0] == "idx" and t[1][0] == "mcall" and t[1][2] == "rsplit" and t[1][3] == (C("/"), C(1)) and t[2] == C(-1):
+        x = norm_stem(t[1][1], param)
+        return None if x is None else ("basename", x)
+    if t[0] == "idx" and t[1][0] == "mcall" and t[1][2] == "rpartition" and t[1][3] == (C("/"),) and t[2] in (C(2), C(-1)):
+        x = norm_stem(t[1][1], param)
+        return None if x is None else ("basename", x)
+    if t[0] == "idx" and t[1][0] == "mcall" and ((t[1][2] == "split" and t[1][3] == (C("."), C(1))) or (t[1][2] == "partition" and t[1][3] == (C("."),))) and t[2] == C(0):
+        x = norm_stem(t[1][1], param)
+        return None if x is None else ("cutdot", x)
+    if t[0] == "idx" and t[1][0] == "mcall" and ((t[1][2] == "rsplit" and t[1][3] == (C("."), C(1))) or (t[1][2] == "rpartition" and t[1][3] == (C("."),))) and t[2] == C(0):
+        x = norm_stem(t[1][1], param)
+        return None if x is None else ("cutext", x)
     if t[0] == "idx" and t[1][0] == "mcall" and t[1][2] == "split" and t[1][3] == (C("/"),) and t[2] == C(-1):
         x = norm_stem(t[1][1], param)
         return None if x is None else ("basename", x)
